@@ -18,14 +18,16 @@ def main():
     def work():
         from pycel import ExcelCompiler
         out = {'hashseed': os.environ.get('PYTHONHASHSEED')}
-        res = outcome_of(lambda: ExcelCompiler.from_file(
-            payload['path'], plugins=payload.get('plugins')))
+        box = {}
+        res = outcome_of(lambda: box.__setitem__('m', ExcelCompiler.from_file(
+            payload['path'], plugins=payload.get('plugins'))))
         if 'exc' in res:
             out['load'] = res
             return out
         out['load'] = {'v': ['blank']}
-        # outcome_of turned the model into json; load again for real
-        model = ExcelCompiler.from_file(payload['path'], plugins=payload.get('plugins'))
+        model = box['m']
+        if payload.get('mode') == 'driver':
+            return drive(model, out)
         out['attrs'] = attrs_of(model)
         out['values'] = [outcome_of(lambda a=a: model.evaluate(a)) for a in payload.get('addrs', [])]
         post = []
@@ -34,12 +36,35 @@ def main():
                 kwargs = {k: op[k] for k in ('iterations', 'tolerance') if op.get(k) is not None}
                 post.append(outcome_of(lambda: model.evaluate(op['a'], **kwargs)))
             elif op['op'] == 'set':
+                if op['a'] not in model.cell_map:
+                    outcome_of(lambda: model.evaluate(op['a']))
                 post.append(outcome_of(lambda: model.set_value(op['a'], op['v'])))
         out['post'] = post
         rs = payload.get('resave')
         if rs:
             res = outcome_of(lambda: model.to_file(rs['base'], file_types=tuple(rs['types'])))
             out['resave'] = res
+        return out
+
+    def drive(model, out):
+        """the rest of a history (sim.history) runs here: explicit operations through a Driver"""
+        from sim.world import Driver
+        driver = Driver(payload['tmpdir'], plugins=tuple(payload.get('plugins') or ()), inline=True)
+        driver.model = model
+        driver.n_files = 100          # file names of its own
+        cse = set(payload.get('cse_members', []))
+        outcomes = []
+        for op in payload['ops']:
+            members = op.get('members') or [op.get('a')]
+            if op['op'] in ('eval', 'set') and any(
+                    m in cse and m not in driver.model.cell_map for m in members):
+                outcomes.append({'skip': 'unsaved-cse-member'})
+                continue
+            res = driver.step(op)
+            outcomes.append(res)
+            if 'exc' in res and op['op'] == 'restart':
+                break
+        out['outcomes'] = outcomes
         return out
 
     if payload.get('fresh_thread'):
